@@ -2031,6 +2031,7 @@ func runNOTIFY(c *Ctx) {
 		notifyConsumed(c, S, step, notified)
 		notifyNoReset(c, S, step, notified, report)
 		notifyRecords(c, S, notified, report)
+		notifyMemoHeight(c, S, notified)
 	}
 }
 
@@ -4301,5 +4302,195 @@ func expandWholeNodes(c *Ctx, S *sidesInfo, step *ssa.Function, stacks map[*sdSl
 	}
 	if n == 0 {
 		c.Undecided(step, P.Pos(step.Pos()), "no node load in the step", "the rule found no load of a node in the diff step or its helpers")
+	}
+}
+
+// notifyMemoHeight: the memo of alreadyNotified is indexed by height; the
+// height it starts from must be the layer of a key (the result of the tree's
+// layer function applied to a Key of a loaded node) on every path that reaches
+// a memo access — in alreadyNotified itself or in the helpers it is split
+// into. A path on which the height is still its initial constant (the descent
+// through single-link nodes left before the layer was computed) makes links of
+// different heights share memo slots, and a link is then reported again.
+func notifyMemoHeight(c *Ctx, S *sidesInfo, notified *ssa.Function) {
+	P := c.P
+	prim := c.P.MastFunc("(*Mast).load")
+	scope := map[*ssa.Function]bool{notified: true}
+	work := []*ssa.Function{notified}
+	for len(work) > 0 {
+		fn := work[len(work)-1]
+		work = work[:len(work)-1]
+		for _, ci := range CallsOf(fn) {
+			cal := ir.Callee(ci.Common())
+			if cal == nil || !S.slice[cal] || cal == prim || scope[cal] {
+				continue
+			}
+			scope[cal] = true
+			work = append(work, cal)
+		}
+	}
+	// failure returns of a function: reachable from an edge on which an error is non-nil
+	failRet := func(fn *ssa.Function) map[*ssa.Return]bool {
+		out := map[*ssa.Return]bool{}
+		ei := ir.ErrorResultIndex(fn.Signature)
+		for _, r := range ir.Returns(fn) {
+			if ei >= 0 && ei < len(r.Results) && !ir.IsNilConst(r.Results[ei]) {
+				out[r] = true
+			}
+		}
+		for _, fe := range sdFailEdges(c, S, fn, 0) {
+			reach := ir.ReachableFrom(fe.to, nil)
+			for _, r := range ir.Returns(fn) {
+				if reach[r.Block()] {
+					out[r] = true
+				}
+			}
+		}
+		return out
+	}
+	type leaf struct {
+		v   ssa.Value
+		why string
+	}
+	var resolve func(v ssa.Value, depth int, seen map[ssa.Value]bool) []leaf
+	resolve = func(v ssa.Value, depth int, seen map[ssa.Value]bool) []leaf {
+		if seen[v] {
+			return nil
+		}
+		seen[v] = true
+		if depth > 6 {
+			return []leaf{{v, "the value could not be traced"}}
+		}
+		idx := 0
+		var call *ssa.Call
+		switch x := v.(type) {
+		case *ssa.Convert:
+			return resolve(x.X, depth, seen)
+		case *ssa.ChangeType:
+			return resolve(x.X, depth, seen)
+		case *ssa.Phi:
+			var out []leaf
+			for _, e := range x.Edges {
+				out = append(out, resolve(e, depth, seen)...)
+			}
+			return out
+		case *ssa.UnOp:
+			if r := ir.ResolveCell(x); r != ssa.Value(x) {
+				return resolve(r, depth, seen)
+			}
+		case *ssa.Extract:
+			idx = x.Index
+			call, _ = x.Tuple.(*ssa.Call)
+		case *ssa.Call:
+			call = x
+		case *ssa.Parameter:
+			fn := x.Parent()
+			pi := sdParamIndex(fn, x)
+			var out []leaf
+			n := 0
+			for _, cs := range P.Callers[fn] {
+				if !scope[cs.Parent()] || pi < 0 || pi >= len(cs.Common().Args) {
+					continue
+				}
+				n++
+				out = append(out, resolve(cs.Common().Args[pi], depth+1, seen)...)
+			}
+			if n == 0 {
+				return []leaf{{v, "a parameter without a call site under " + notified.Name()}}
+			}
+			return out
+		case *ssa.Const:
+			return []leaf{{v, "the constant " + sdDesc(v) + " (the height's initial value)"}}
+		}
+		if call == nil {
+			return []leaf{{v, sdDesc(v) + " is not the result of the layer function"}}
+		}
+		if cal := ir.Callee(call.Common()); cal != nil {
+			if !scope[cal] {
+				return []leaf{{v, "the result of " + cal.Name()}}
+			}
+			fails := failRet(cal)
+			var out []leaf
+			for _, r := range ir.Returns(cal) {
+				if fails[r] || idx >= len(r.Results) {
+					continue
+				}
+				out = append(out, resolve(r.Results[idx], depth+1, seen)...)
+			}
+			return out
+		}
+		// a function value taken from a field of the tree, applied to a key of a node
+		if ld, ok := call.Call.Value.(*ssa.UnOp); ok && ld.Op == token.MUL && !call.Call.IsInvoke() {
+			if fa, ok := ld.X.(*ssa.FieldAddr); ok && sdIsMast(fa.X.Type()) && len(call.Call.Args) > 0 {
+				if sdPathThroughNodeField(call.Call.Args[0], "Key") {
+					return nil // the layer of a key
+				}
+				return []leaf{{v, "the layer function applied to " + sdDesc(call.Call.Args[0]) + ", which is not a key of a loaded node"}}
+			}
+		}
+		return []leaf{{v, sdDesc(v) + " is not the result of the layer function"}}
+	}
+	n := 0
+	for _, fn := range S.fns {
+		if !scope[fn] {
+			continue
+		}
+		for _, b := range fn.Blocks {
+			for _, ins := range b.Instrs {
+				var index ssa.Value
+				var kind string
+				switch x := ins.(type) {
+				case *ssa.Lookup:
+					if _, isMap := x.X.Type().Underlying().(*types.Map); isMap {
+						index, kind = x.Index, "look-up"
+					}
+				case *ssa.MapUpdate:
+					index, kind = x.Key, "update"
+				}
+				if index == nil {
+					continue
+				}
+				n++
+				// the height operand(s): not computed in the loop of the access itself
+				var hs []ssa.Value
+				iv := index
+				if cv, ok := iv.(*ssa.Convert); ok {
+					iv = cv.X
+				}
+				if bin, ok := iv.(*ssa.BinOp); ok && bin.Op == token.ADD {
+					for _, op := range []ssa.Value{bin.X, bin.Y} {
+						o := op
+						for {
+							cv, isCv := o.(*ssa.Convert)
+							if !isCv {
+								break
+							}
+							o = cv.X
+						}
+						if di, isI := o.(ssa.Instruction); isI && di.Block() != nil && di.Parent() == fn && ir.CanReach(b, di.Block()) && ir.CanReach(di.Block(), b) && sdBlockInCycle(di.Block()) {
+							continue // the per-level offset of the loop over the path
+						}
+						hs = append(hs, op)
+					}
+				} else {
+					hs = []ssa.Value{iv}
+				}
+				pos := P.InstrPos(ins)
+				bad := false
+				for _, h := range hs {
+					for _, lf := range resolve(h, 0, map[ssa.Value]bool{}) {
+						c.Violation(fn, pos, "memo "+kind+" at a height that is not the layer of a key",
+							fmt.Sprintf("the memo of %s is indexed from %s; on some path this is %s: the descent through single-link nodes can end before the layer of the first keyed node's key is computed, so links of different heights share memo slots and a link is reported to the link callback again", notified.Name(), sdDesc(h), lf.why))
+						bad = true
+					}
+				}
+				if !bad {
+					c.OK(pos, "memo "+kind+" in "+ir.FuncName(fn), "the height is the layer of a key of a loaded node on every path", false)
+				}
+			}
+		}
+	}
+	if n == 0 {
+		c.Undecided(notified, P.Pos(notified.Pos()), "no memo access", notified.Name()+" (with its helpers) never reads or writes a map: the rule cannot find the memo")
 	}
 }
